@@ -52,8 +52,8 @@ T = {
          "non-trivial if the input is rejected after at least one field was read, or accepted, or carries a maximal prefix; distinct by hash of (type, bytes)",
          []),
  "C10": ("schema-enumerated max-prefix inputs + rapid hostile inputs, allocation oracle via runtime.MemStats",
-         "TotalAlloc delta around each Decode must stay below 32 KiB + 64 x len(input) on schema-enumerated hostile prefixes (every count/length of every type at max, 2^k, m*2^k ...), generated hostile inputs, inputs in buffers with spare capacity, and inputs after earlier valid decodes in the same process; process death under the address-space limit is a violation.",
-         "Bound constants justified in DESIGN.md (6x margin above the worst legitimate shape, half the smallest forbidden allocation).",
+         "TotalAlloc delta around each Decode must stay below 32 KiB + 160 x len(input), and an input that only overstates a count/length may not allocate more than its truthful twin + 32 KiB + 24 x len(input), on schema-enumerated hostile prefixes (every count/length of every type at max, 2^k, m*2^k ...), generated hostile inputs, inputs in buffers with spare capacity, and inputs after earlier valid decodes in the same process; process death under the address-space limit is a violation.",
+         "Bound constants justified in DESIGN.md 7.3/7.5: the absolute factor was raised from 64 to 160 after a property-preserving variant (append-grown list of 1-byte fixed texts) measured 84 bytes per input byte; the relative (twin) bound carries the sharp detection.",
          "non-trivial if a count/length prefix in the input claims more than the bytes present",
          []),
  "C11": ("exhaustive cut positions of rapid-generated canonical encodings",
